@@ -22,16 +22,18 @@ import (
 )
 
 type CrowdRec struct {
-	Idx        int      `json:"idx"`
-	Collectors int      `json:"collectors"`
-	SlowMs     int      `json:"accept_delay_ms"`
-	Churners   int      `json:"churning_goroutines"`
-	Rounds     int      `json:"rounds"`
-	Deliveries int64    `json:"deliveries_to_staying_collectors"`
-	ChurnOps   int64    `json:"subscribe_unsubscribe_pairs"`
-	Kinds      []string `json:"kinds,omitempty"`
-	Notes      []string `json:"notes,omitempty"`
-	NotJudged  string   `json:"not_judged,omitempty"`
+	Idx        int   `json:"idx"`
+	Collectors int   `json:"collectors"`
+	SlowMs     int   `json:"accept_delay_ms"`
+	Churners   int   `json:"churning_goroutines"`
+	Rounds     int   `json:"rounds"`
+	Deliveries int64 `json:"deliveries_to_staying_collectors"`
+	ChurnOps   int64 `json:"subscribe_unsubscribe_pairs"`
+	// RemoveRaces: RemoveTask calls that raced with another RemoveTask of the same task
+	RemoveRaces int64    `json:"racing_remove_task_calls"`
+	Kinds       []string `json:"kinds,omitempty"`
+	Notes       []string `json:"notes,omitempty"`
+	NotJudged   string   `json:"not_judged,omitempty"`
 }
 
 type crowdCollector struct {
@@ -56,8 +58,10 @@ func (c *crowdCollector) RequestQualities(ctx context.Context, m *protocol.Reque
 	atomic.AddInt64(c.inflight, -1)
 	return nil
 }
-func (c *crowdCollector) RequestProof(context.Context, *protocol.RequestProof) error         { return nil }
-func (c *crowdCollector) RequestSignature(context.Context, *protocol.RequestSignature) error { return nil }
+func (c *crowdCollector) RequestProof(context.Context, *protocol.RequestProof) error { return nil }
+func (c *crowdCollector) RequestSignature(context.Context, *protocol.RequestSignature) error {
+	return nil
+}
 
 func crowdScenario(rng *vh.Rng, idx int) *CrowdRec {
 	rec := &CrowdRec{Idx: idx, Collectors: rng.Range(140, 230), Churners: rng.Range(0, 6), Rounds: rng.Range(2, 4)}
@@ -166,7 +170,41 @@ func crowdScenario(rng *vh.Rng, idx int) *CrowdRec {
 	}
 	close(stop)
 	cwg.Wait()
+	rec.RemoveRaces = removeRace(rng.Derive("remove-race", 0))
 	return rec
+}
+
+// removeRace: a task removed by several callers at once (a miner that gives a round up while its timeout fires), with
+// other tasks being added meanwhile. Every RemoveTask must return; a panic ends the child process and is attributed by
+// the parent (process-crashed, site LocalSuperior.RemoveTask). Returns the number of racing removals made.
+func removeRace(rng *vh.Rng) int64 {
+	ls := fractal.NewLocalSuperior()
+	ctx := context.Background()
+	rounds := 1500
+	var n int64
+	for r := 0; r < rounds; r++ {
+		mk := func() *protocol.RequestQualities {
+			id := uuid.New()
+			var ch [32]byte
+			copy(ch[:], id[:])
+			return &protocol.RequestQualities{TaskID: id, Challenge: ch, ParentTarget: big.NewInt(0), ParentSlot: uint64(time.Now().Unix())/poc.PoCSlot + 10, Height: uint64(5000 + r)}
+		}
+		req, other := mk(), mk()
+		ls.AddTask(ctx, uuid.Nil, req)
+		start := make(chan struct{})
+		var wg sync.WaitGroup
+		k := 2 + rng.Intn(2)
+		for g := 0; g < k; g++ {
+			wg.Add(1)
+			go func() { defer wg.Done(); <-start; ls.RemoveTask(req.TaskID) }()
+		}
+		wg.Add(1)
+		go func() { defer wg.Done(); <-start; ls.AddTask(ctx, uuid.Nil, other); ls.RemoveTask(other.TaskID) }()
+		close(start)
+		wg.Wait()
+		n += int64(k)
+	}
+	return n
 }
 
 // ---------------------------------------------------------------- relay with a stalled upstream
